@@ -184,6 +184,7 @@ def run(ctx):
             ctx.ob('C04.3', f, 'cache-result:' + s.name, verdict is None,
                    '%s result is consumed by %s%s' % (s.name, ' > '.join(chain) or 'match', '' if verdict is None else ' — ' + verdict), line=s.line)
     ctx.floor('C04.3', 'cache-read calls in ContinuityStore', n, 15)
+    c044(ctx)
 
 
 def reads_locals_args(f, site):
@@ -238,3 +239,88 @@ def consumption(f, site):
             return chain, None
         l = nxt
     return chain, None
+
+
+# ---------------------------------------------------------------------- C04.4 / C04.6
+VALIDATORS = [
+    # (function, validator callee regex, what)
+    ('ripd::continuity_stream_cache::ContinuityStreamCache::ensure_seq_index_v1', r'continuity_seek_index::validate_seq_index_against_sidecar$', 'seek index is cross-checked against the sidecar'),
+    ('ripd::message_ordinal_index::message_count_v1', r'message_ordinal_index::validate_header_v1$', 'ordinal index header (magic / version) is validated'),
+    ('ripd::message_ordinal_index::read_message_by_ordinal_v1', r'message_ordinal_index::validate_header_v1$', 'ordinal index header is validated'),
+]
+
+
+def c044(ctx):
+    from .c01 import ok_edge_of_try
+    P = ctx.prog
+    ctx.rule('C04.4', 'validators are on the path: a fast-path answer is reachable only through the Ok edge of its validator (seek index vs sidecar, ordinal index header), and try_replay accepts a sidecar line only on the equal edge of the seq-contiguity and stream-identity comparisons.')
+    ctx.rule('C04.6', 'freshness: the fast-path return of ContinuityStore::replay_events depends (control or data) on a value read from the truth log; a rule expected to fail today (finding K-C04-stale).')
+    for path, vrx, what in VALIDATORS:
+        f = P.fn(path)
+        ctx.touch(f)
+        vs = f.calls(vrx)
+        if not vs:
+            ctx.ob('C04.4', f, 'validator-called', False, 'the validator (%s) is no longer called' % what)
+            continue
+        oks = []
+        for (bi, si, st) in f.aggregates(r'^core::result::Result$', 'Ok'):
+            if st['d']['l'] != 0:
+                continue
+            o = f.origin(st['rv']['a'][0])
+            if o[0] == 'rv' and o[1]['k'] == 'agg' and o[1].get('adt') == 'core::option::Option' and o[1].get('variant') == 'None':
+                continue        # a miss, not an answer
+            oks.append(bi)
+        if not oks:
+            raise CheckError('C04.4: %s has no Ok(answer) return' % path)
+        for v in vs:
+            e = ok_edge_of_try(f, v)
+            ok = e is not None and e[1] is not None and all(f.edge_dom(e[0], e[1], b) for b in oks)
+            ctx.ob('C04.4', f, 'answer-only-after-validation', ok, '%s: every Ok answer is %s' % (what, 'reachable only through the Ok edge of the validator' if ok else 'reachable WITHOUT a successful validation'), line=v.line)
+    tr = P.fn('ripd::continuity_stream_cache::ContinuityStreamCache::try_replay')
+    ctx.touch(tr)
+    pushes = tr.calls(r'alloc::vec::Vec::push$', full=r'Vec::<rip_kernel::Event>::push')
+    if not pushes:
+        raise CheckError('C04.4: try_replay does not collect events')
+    from ..core import switches as _sw
+    seq_edges, id_edges = [], []
+    for (bi, on, ts, els) in _sw(tr):
+        o = tr.origin(on)
+        if o[0] == 'rv' and o[1]['k'] == 'bin' and o[1]['op'] in ('Ne', 'Eq'):
+            names = []
+            locs = []
+            for a in o[1]['a']:
+                src = tr.origin(a)
+                if src[0] == 'local':
+                    names += [pp.get('n') for pp in src[2] if isinstance(pp, dict) and 'f' in pp]
+                    locs.append(tr.lname(src[1]))
+            if 'seq' in names and 'expected_seq' in locs:
+                seq_edges.append((bi, ts.get('0') if o[1]['op'] == 'Ne' else els))
+        if o[0] == 'call' and re.search(r'PartialEq(::|.*>::)(ne|eq)$', o[1].callee):
+            srcs = set()
+            for a in o[1].args:
+                for x in sources(tr, a):
+                    if x[0] == 'call':
+                        srcs.add(x[1].rsplit('::', 1)[-1])
+            if srcs & {'stream_kind', 'stream_id'}:
+                id_edges.append((bi, ts.get('0') if o[1].name == 'ne' else els, sorted(srcs & {'stream_kind', 'stream_id'})))
+    for pu in pushes:
+        ok = any(t is not None and tr.edge_dom(bi, t, pu.bb) for (bi, t) in seq_edges)
+        ctx.ob('C04.4', tr, 'contiguity-checked', ok, 'a sidecar line is accepted %s' % ('only on the equal edge of event.seq vs expected_seq' if ok else 'WITHOUT the seq-contiguity comparison'), line=pu.line)
+        kinds = set()
+        for (bi, t, k) in id_edges:
+            if t is not None and tr.edge_dom(bi, t, pu.bb):
+                kinds |= set(k)
+        ctx.ob('C04.4', tr, 'stream-identity-checked', kinds == {'stream_kind', 'stream_id'}, 'a sidecar line is accepted only when its stream kind and stream id match (checked: %s)' % sorted(kinds), line=pu.line)
+    # ---- C04.6
+    rp = P.fn('ripd::continuities::ContinuityStore::replay_events')
+    ctx.touch(rp)
+    for (bi, si, st) in rp.aggregates(r'^core::result::Result$', 'Ok'):
+        if st['d']['l'] != 0:
+            continue
+        src = sources(rp, st['rv']['a'][0])
+        if not any(x[0] == 'call' and x[1].endswith('::try_replay') for x in src):
+            continue
+        truth = [s for s in rp.calls(r'^rip_log::EventLog::') if rp.dom(s.bb, bi)]
+        ctx.ob('C04.6', rp, 'fast-path-checks-truth', bool(truth),
+               'the sidecar answer is returned %s' % ('after consulting the truth log' if truth else
+                                                     'without any dependence on the truth log: a sidecar that is well-formed but older than truth (rolled back, or a prefix left by a crash) is returned as the thread'), line=st.get('ln'))
